@@ -20,19 +20,23 @@ def fill(claim, na):
     claim("C07",
           "AST/CFG rules over all dfs units: thrown-type census, interprocedural may-throw sets vs. try handlers in main, "
           "exit-status value sets, must-dataflow size checks on every FileAccess::read result, input-governed loop exits, "
-          "field-based taint from 32-bit file fields to allocation sizes, dominance of optional dereferences",
-          "Decides seven structural necessary conditions of clean failure for all inputs (each was violated by a hostile "
-          "file before the fix: commits). Does not decide general memory safety/termination of the parsers or assertion "
-          "reachability.",
+          "field-based taint from 32-bit file fields to allocation sizes, dominance of optional dereferences, non-zero "
+          "divisors, recursive diagnose-on-failure classification of every command path",
+          "Decides nine structural necessary conditions of clean failure for all inputs (eight were violated by a hostile "
+          "file or command line before the fix: commits). Does not decide general memory safety/termination of the "
+          "parsers or assertion reachability.",
           "Trusts clang AST/CFG, the call-graph closure (virtual calls to all overriders, lambdas attributed to their "
           "enclosing function) and the table of throwing library entry points.",
           "DESIGN.md 3/C07")
     claim("C08",
           "clang CFG-based uninitialised-value analysis in both configurations; getopt table/handler/short-string "
-          "agreement folded from the AST; exit-status value set",
+          "agreement folded from the AST; exit-status value set; diagnose-on-failure classification from main; "
+          "cursor/remaining-length must-facts and per-block pairing in the token decoders; type-range intervals "
+          "refined by dominating comparisons for input-dependent subscripts and fread lengths",
           "Decides, for every command line and input, that option state is initialised in both builds, that no option "
-          "handler can see a NULL optarg, and that main returns 0 or 1 without exit/abort. Does not decide full memory "
-          "safety of the C units.",
+          "handler can see a NULL optarg or an unset long index, that main returns 0 or 1 without exit/abort and never "
+          "silently, that every byte read through the token cursor is covered by a remaining-length guard, and that "
+          "input-dependent indices stay in range. Does not decide full memory safety of the C units.",
           "Trusts clang's -Wuninitialized family and getopt_long semantics.",
           "DESIGN.md 3/C08")
     claim("C19",
